@@ -54,7 +54,7 @@ InsertExplicit ==
     /\ next <= NH
     /\ present' = present \cup {next} /\ live' = live \cup {next} /\ next' = next + 1
     /\ UNCHANGED <<logical, justs, retracted>>
-    /\ last' = [op |-> "explicit"]
+    /\ \E via \in {"explicit", "insert", "template"} : last' = [op |-> "explicit", via |-> via]     \* three entry points, one meaning
 
 InsertLogical(P) ==
     /\ next <= NH /\ Len(justs) < MaxJ
